@@ -28,6 +28,46 @@ NOTES = {
  "C01-agent-2": "not visible to C01 (no generation between parse and print there); reported by C10 'generate changed the parsed object'",
  "C09-agent-2": "a change of System.generator's stop rule: reported by C13 (C09 claims the plumbing only)",
  "C13-agent-2": "",
+ "C08-agent-2": "first exit 3 (numpy used in a module where it was not shimmed): the shim is now bound in every module of the package and models fancy indexing",
+ # ---- round 2
+ "C01-r2-A": "first exit 3 (a regular expression met a symbolic text): `re` is a proxy that forces symbolic text concrete - numeral atoms fork over the printing classes of repr(float) (plain / exponent) - and numbers are additionally written as plain decimals and in exponent notation",
+ "C01-r2-B": "not visible to C01 (no generation between parse and print); reported by C10 'generate changed the parsed object'",
+ "C02-r2-A": "",
+ "C02-r2-B": "missed by C02 first (it had no obligation on the mixture specification): case 'mixture-specification' added (absolute mass / percentage in every spelling, through Mixture, Molecule and System)",
+ "C03-r2-A": "first a vacuity error (descriptor states were built with __new__ and lacked the new attribute): states are built by the real constructor; case 'state-triple/history' added (the same objects are asked about several partners in sequence)",
+ "C03-r2-B": "",
+ "C04-r2-A": "missed by C04 first: skeleton 'id-zero-and-idless' added; C03 reports it independently",
+ "C04-r2-B": "C15 first could not replay its candidate (prefix text missing from the replay file): fixed",
+ "C05-r2-A": "missed first: skeletons 'hypervalent-attachment-atoms' and 'phosphonate-endgroups' added",
+ "C05-r2-B": "missed first: the reference reading of a token used the text the code prints back; it now uses the text as written. Skeleton 'doubled-sign-charges' added",
+ "C06-r2-A": "",
+ "C06-r2-B": "missed first: skeleton 'suffix-descriptor-after-branch' added",
+ "C07-r2-A": "",
+ "C07-r2-B": "missed first: obligation 'growth ends without a comparison only when no open descriptor is left' and skeleton 'zero-weight-chain-end' added",
+ "C08-r2-A": "also reported by the new isolated harness of choose_compatible_weight (one of its candidates sits exactly on the tolerance boundary and does not replay)",
+ "C08-r2-B": "first a vacuity error (the list pick moved into a helper the oracle did not recognise): list picks are located by content; obligation 'an open descriptor that carries a list gets its partner from the list, never from the weights' added",
+ "C09-r2-A": "C07 / C05 first exit 3 (the observer wrapped a module attribute the change removed): observers tolerate that and C07 falls back on the masses of the written tokens; skeleton 'heavy-isotope-unit' added. C09 itself claims the plumbing only",
+ "C09-r2-B": "MISSED: a tabulated sampler inside the hand-written flory_schulz law keeps the first parameter it sees. The sampler law is outside C09's reduced claim (scipy objects are replaced by recorders) and belongs to C11 (not applicable)",
+ "C10-r2-A": "missed first: operation 'generate-same-stream' (the instance repeats run A's stream before run B) and skeleton 'chain-stopper-unit' added",
+ "C10-r2-B": "missed first: case 'static-initiator/result-used-as-prefix' added",
+ "C12-r2-A": "missed by the first quick tier (needs four components): quick tier raised to k <= 4",
+ "C12-r2-B": "first exit 3 (round() of a symbolic real): modelled exactly (nearest multiple of 10^-n)",
+ "C13-r2-A": "missed first: cases 'generator-after-partial / -complete / -single-generate' added (the same System object is iterated again)",
+ "C13-r2-B": "C13 stubs the components' generate: reported by C06 through the new obligation 'a molecule returned without open descriptor contains every written element' on skeleton 'list-can-close-before-suffix'",
+ "C14-r2-A": "MISSED (exit 3): the pick is re-implemented by inverse-CDF sampling on rng.random(); C14 reads the law off the vector handed to rng.choice. Deciding it needs the measure of the uniform variable per path (not built)",
+ "C14-r2-B": "MISSED: picks are drawn in blocks of 512 and the block is only re-permuted; needs an ensemble of more than 512 molecules, the bounded runs yield at most 4 (sized rng.choice is now modelled lazily, the check stays silent)",
+ "C15-r2-A": "missed first: percentages outside 0-100 are now unbounded (every printing class) and written in every spelling",
+ "C15-r2-B": "",
+ "C16-r2-A": "missed first: the graph of the mirror taken after the graph was drawn is checked against the mirror itself",
+ "C16-r2-B": "a change of the generator: reported by C08 (terminal weight / list transfer)",
+ "C17-r2-A": "",
+ "C17-r2-B": "",
+ "C18-r2-A": "missed first: skeleton 'sz-dollar-blocks-saturated-linker' added",
+ "C18-r2-B": "missed first: package state is reset before every path and the obligation 'a later generation consumes the generator like the first' added (replayed with real generators and equal seeds)",
+ "C19-r2-A": "missed first: skeleton 'same-unit-in-adjacent-blocks' added (reference law summed over the splits)",
+ "C19-r2-B": "first exit 3 only (an uninterpreted CDF separates F(round(x)) from F(x), the real discrete law does not for masses with a fraction below .5): skeleton 'chlorinated-unit-discrete-law' added, counter-examples are replayed per chain length",
+ "C20-r2-A": "missed first: case 'molgen-typing-sequences' added (typable / isotope-labelled / untypable molecules typed in sequence through MolGen.forcefield_types)",
+ "C20-r2-B": "missed first: same new case",
 }
 rows = []
 for d in sorted(glob.glob("/verif/seeded/*/meta.json")):
